@@ -214,6 +214,30 @@ def views_jobs(tier, seed):
     return jobs
 
 
+def CA(x): return {'kind': 'cached', 'inner': x}
+OBS10 = ['source', 'size', 'c1f0', 'c0f0', 'c1f1', 'c0f1', 'map1', 'map0']
+C10_QUICK = [
+    ('cached(concat[orig a;/?,rawstr1]) x 2 symbolic ops', CA(CC(O('a;\n?'), RS('!'))), dict(history_slots=2)),
+    ('cached(orig sym2) x 2 symbolic ops', CA(O('??')), dict(history_slots=2)),
+    ('cached(replace(orig ab;c,[sym X named])) after stream + 1 symbolic op', CA(RP(O('ab;c'), (Q, Q, 'X', 'n'))), dict(history=['c1f0'], history_slots=1)),
+    ('cached(sms 2 lines) x 2 symbolic ops', CA(SM('abcd\nef', 'AAAA,?AAAA;AAAA', ('o.js', 'p.js'), ('xyz\nuv',), ('nm', 'n2'), 'r')), dict(history_slots=2)),
+    ('cached(rawstr) x 3 symbolic ops', CA(RS('!\n!')), dict(history_slots=3)),
+    ('cached(orig a;/b) x 3 symbolic ops', CA(O('a;\nb')), dict(history_slots=3)),
+    ('concat[cached(orig2),rawstr1] after map,stream', CC(CA(O('??')), RS('!')), dict(history=['map1', 'c1f0', 'map0'], alt='uncached')),
+    ('replace(cached(orig a;b),[sym X]) after map,stream', RP(CA(O('a;b')), (Q, Q, 'X')), dict(history=['map1', 'c1f0', 'source'], alt='uncached')),
+    ('cached(cached(orig2)) x 2 symbolic ops', CA(CA(O('??'))), dict(history_slots=2, alt='uncached')),
+]
+
+
+def c10_jobs(tier, seed):
+    jobs = []
+    for t in C10_QUICK:
+        p = dict(tree=t[1], props=['C10'], alt='inner', alt_prop='C10', what=OBS10)
+        p.update(t[2])
+        jobs.append(J('cached:' + t[0], 'jobs.streams:tree_job', p, timeout=900))
+    return jobs
+
+
 def c13_jobs(tier, seed):
     jobs = []
     for t in C13_QUICK:
@@ -293,6 +317,8 @@ PROPS = {
                 outside='multi-digit VLQ fields in the given map (the decoder itself is C12), texts longer than 3 lines, the user-defined-source entry stream_chunks_default (same function underneath), non-ASCII text', assumptions=TREE_ASSUME),
     'C05': dict(jobs=[replace_jobs(['C05'])], bounds=RTREE_BOUNDS, outside='texts longer than the catalog, more than 4 replacements, non-ASCII texts (engine K covers the real String/Rope code on multi-byte shapes when registered); rope()/buffer()/size() views are C07', assumptions=TREE_ASSUME),
     'C06': dict(jobs=[tree_jobs(['C06']), replace_jobs(['C06']), sms_jobs(['C06'])], bounds=RTREE_BOUNDS, outside=TREE_OUTSIDE + '; SourceMapSource children with several sources/names until stage S2b is registered', assumptions=TREE_ASSUME),
+    'C10': dict(jobs=[c10_jobs], bounds={'quick': 'catalog C10_QUICK: CachedSource over Original / Raw / ConcatSource / ReplaceSource / SourceMapSource inners (<= 3 symbolic bytes or symbolic replacement range / map digits), CachedSource inside a ConcatSource / under a ReplaceSource / nested; CALL HISTORY of 2-3 slots whose operation the solver picks from {map(columns), map(lines), stream(columns), stream(lines), source, hash, clone-and-continue-on-the-clone}, then source, size, all four streams and both maps are compared with the wrapped source alone (text, end info, per-position attribution; file and line for columns=false)', 'thorough': 'as quick'},
+                outside='histories longer than 3 calls; texts beyond the catalog; attribution equality is per position, not chunk-for-chunk (the replay path legitimately coarsens chunks)', assumptions=TREE_ASSUME + ['DashMap is a finite map from MapOptions to heap cells (contracts.py); FxHasher::finish is an uninterpreted function of the written stream']),
     'C11': dict(jobs=[tree_jobs(['C11']), replace_jobs(['C11']), sms_jobs(['C11']), codec_c11], bounds=RTREE_BOUNDS, outside=TREE_OUTSIDE, assumptions=TREE_ASSUME),
     'C13': dict(jobs=[c13_jobs], bounds={'quick': 'catalog lib/props.py:C13_QUICK: nested boxed ConcatSource groupings (depth <= 3) vs the flat concatenation; single-child / empty-children ConcatSource, boxing and a ReplaceSource without replacements vs the wrapped source; <= 4 symbolic bytes; text, per-position attribution through map() (both column settings) and through the chunk stream, end info', 'thorough': 'as quick'},
                 outside=TREE_OUTSIDE + '; typed nesting flattened by ConcatSource::new/add and CachedSource wrappers until their stages are registered', assumptions=TREE_ASSUME),
